@@ -44,6 +44,15 @@ def stiff_diag(lam, n):
             "exact": (lambda t: [y0[i] * math.exp(-rates[i] * t) for i in range(n)])}
 
 
+def stiff_osc(lam):
+    """a fast mode tracking an oscillation:  y' = -lam (y - u) + v,  u' = v,  v' = -u  with y = u = cos t, v = -sin t
+    (the textbook y' = -lam (y - cos t) - sin t written without trigonometric functions); over several periods the step
+    size keeps growing and shrinking, so accepted steps that reuse the factorisation are followed by rejections"""
+    return {"name": "stiff_osc", "f": [add(mul(C(-lam), sub(Y(0), Y(1))), Y(2)), Y(2), neg(Y(1))], "y0": [1.0, 1.0, 0.0],
+            "jac": [[C(-lam), C(lam), C(1.0)], [C(0.0), C(0.0), C(1.0)], [C(0.0), C(-1.0), C(0.0)]],
+            "exact": (lambda t: [math.cos(t), math.cos(t), -math.sin(t)])}
+
+
 def builder(seed, n, defaults, tag):
     rng = random.Random(seed)
     cases, metas = [], {}
@@ -77,6 +86,38 @@ def builder(seed, n, defaults, tag):
                 cases.append(gen.solve_case(cid, **kw))
                 metas[cid] = (meta, kw)
             g += 1
+    # oscillatory forcing over several periods, a sweep of tolerances per stiffness ratio
+    for gi in range(max(2, n // 40)):
+        for method in ("RADAU", "BDF"):
+            span = rng.uniform(6.0, 12.0)
+            use_jac = rng.random() < 0.5
+            for lam in (1e4, 1e6, 1e8, 1e10):
+                rt = 10 ** rng.uniform(-9, -4)
+                prob = stiff_osc(lam)
+                kw = dict(method=method, prob=prob, x0=0.0, xend=span, rtol=rt, atol=rt * 1e-2, defaults=defaults, use_jac=use_jac)
+                cid = "%sosc%d_%g" % (tag, g, lam)
+                meta = {"family": prob["name"], "n": 3, "backward": False, "tolmode": "mixed", "method": method,
+                        "group": "osc%d" % g, "lam": lam, "exact": prob["exact"], "fdjac": not use_jac, "no_count_compare": True}
+                cases.append(gen.solve_case(cid, **kw))
+                metas[cid] = (meta, kw)
+            g += 1
+    # the same with a window in which the oscillator's frequency jumps (kinks in the forcing): steps that reuse the
+    # factorisation (steady step size, linear problem) are followed by error-test rejections at the kinks
+    from .gen import iflt, absx
+    for lam in (1e2, 1e4, 1e6, 1e8):
+        for rt in (1e-4, 1e-5, 1e-6, 1e-7, 1e-8):
+            for method, reps in (("RADAU", 2), ("BDF", 1)):
+                for _ in range(reps):
+                    coef = add(C(1.0), iflt(absx(sub(T, C(rng.uniform(1.0, 8.0)))), C(rng.uniform(0.05, 0.5)),
+                                            C(rng.choice([3.0, 30.0, 80.0])), C(0.0)))
+                    prob = {"name": "stiff_osc_kink", "y0": [1.0, 1.0, 0.0],
+                            "f": [add(mul(C(-lam), sub(Y(0), Y(1))), Y(2)), Y(2), neg(mul(coef, Y(1)))]}
+                    kw = dict(method=method, prob=prob, x0=0.0, xend=10.0, rtol=rt, atol=rt * 1e-2, defaults=defaults)
+                    cid = "%skink%d" % (tag, len(cases))
+                    meta = {"family": prob["name"], "n": 3, "backward": False, "tolmode": "mixed", "method": method,
+                            "group": "kink%d" % len(cases), "lam": lam, "fdjac": True}
+                    cases.append(gen.solve_case(cid, **kw))
+                    metas[cid] = (meta, kw)
     # nonlinear: Robertson (linear invariant y1+y2+y3 = 1) and stiff Van der Pol
     for method in ("RADAU", "BDF"):
         for use_jac in (True, False):
@@ -122,7 +163,7 @@ def group_oracle(metas, parsed):
                 lim = 1e-12 if not meta.get("fdjac") else 1e-9
                 if dev > lim * max(1, len(r["t"])):
                     out.append((cid, "invariant", "linear invariant drifts by %.3g" % dev))
-        if len(counts) >= 3 and counts[0][0] is not None:
+        if len(counts) >= 3 and counts[0][0] is not None and not metas[cids[0]][0].get("no_count_compare"):
             lo = min(c for _, c in counts)
             hi = max(c for _, c in counts)
             if hi > 4 * lo + 60:
